@@ -282,6 +282,49 @@ pub fn run_c14(args: &[String]) {
             }
         }
     }
+    // every command without a term: written by serialize_cmd, read back by parse_command, must be the same command
+    {
+        use patronus::smt::Logic;
+        fn cmd_json(ctx: &Context, c: &SmtCommand) -> J {
+            match c {
+                SmtCommand::Exit => json!({"c":"exit","a":[]}),
+                SmtCommand::CheckSat => json!({"c":"check-sat","a":[]}),
+                SmtCommand::SetLogic(l) => json!({"c":"set-logic","a":[format!("{l:?}")]}),
+                SmtCommand::SetOption(k, v) => json!({"c":"set-option","a":[k, v]}),
+                SmtCommand::SetInfo(k, v) => json!({"c":"set-info","a":[k, v]}),
+                SmtCommand::Push(n) => json!({"c":"push","a":[n.to_string()]}),
+                SmtCommand::Pop(n) => json!({"c":"pop","a":[n.to_string()]}),
+                SmtCommand::GetUnsatAssumptions => json!({"c":"get-unsat-assumptions","a":[]}),
+                SmtCommand::DeclareConst(s) => json!({"c":"declare-const","a":[ctx.get_symbol_name(*s).unwrap_or("?"), type_json(s.get_type(ctx)).to_string()]}),
+                _ => json!({"c":"other","a":[]}),
+            }
+        }
+        let mut ctx = Context::default();
+        let mut cmds: Vec<SmtCommand> = vec![SmtCommand::Exit, SmtCommand::CheckSat, SmtCommand::GetUnsatAssumptions,
+            SmtCommand::SetLogic(Logic::QfBv), SmtCommand::SetLogic(Logic::QfAbv), SmtCommand::SetLogic(Logic::QfAufbv), SmtCommand::SetLogic(Logic::All),
+            SmtCommand::SetOption("produce-models".into(), "true".into()), SmtCommand::SetOption("incremental".into(), "false".into()),
+            SmtCommand::SetInfo("status".into(), "sat".into()), SmtCommand::SetInfo("source".into(), "pv".into()),
+            SmtCommand::Push(1), SmtCommand::Pop(1), SmtCommand::Push(3), SmtCommand::Pop(2)];
+        for (nm, t) in [("p", Type::BV(1)), ("v8", Type::BV(8)), ("v65", Type::BV(65)), ("needs quoting", Type::BV(2)),
+                        ("m", Type::Array(ArrayType { index_width: 1, data_width: 1 })), ("m2", Type::Array(ArrayType { index_width: 4, data_width: 1 })),
+                        ("m3", Type::Array(ArrayType { index_width: 1, data_width: 7 })), ("m4", Type::Array(ArrayType { index_width: 5, data_width: 9 }))] {
+            let s = match t { Type::BV(w) => ctx.bv_symbol(nm, w), Type::Array(a) => ctx.array_symbol(nm, a.index_width, a.data_width) };
+            cmds.push(SmtCommand::DeclareConst(s));
+        }
+        let st: FxHashMap<String, ExprRef> = FxHashMap::default();
+        for (i, c) in cmds.iter().enumerate() {
+            let written = cmd_json(&ctx, c);
+            let rec = match write(&ctx, c) {
+                Err((loc, msg)) => json!({"ev":"Cmd","id":format!("c{i}"),"text":"","written":written,"kind":"panic","read":{"c":"","a":[]},"loc":format!("{loc}|{msg}"),"cls":""}),
+                Ok(text) => match guarded(|| parse_command(&mut ctx, &st, text.as_bytes())) {
+                    Ok(Ok(back)) => json!({"ev":"Cmd","id":format!("c{i}"),"text":text.trim(),"written":written,"kind":"ok","read":cmd_json(&ctx, &back),"loc":"","cls":""}),
+                    Ok(Err(e)) => json!({"ev":"Cmd","id":format!("c{i}"),"text":text.trim(),"written":written,"kind":"error","read":{"c":"","a":[]},"loc":format!("{e}"),"cls":""}),
+                    Err((loc, msg)) => json!({"ev":"Cmd","id":format!("c{i}"),"text":text.trim(),"written":written,"kind":"panic","read":{"c":"","a":[]},"loc":format!("{loc}|{msg}"),"cls":""}),
+                },
+            };
+            vout.put(&rec);
+        }
+    }
     let (n, nv) = (out.n, vout.n);
     out.finish();
     vout.finish();
